@@ -54,6 +54,7 @@ def _ival(x):
 
 def check_deals(sim, obs, m, t):
     nt = 0
+    unobserved = set()
     for k, d in enumerate(obs.deals):
         who = f"dealing call #{k} by party {d['pid']} ({d['variant']}, {d['n']} secrets, field order {d['order']})"
         if d['t'] != t:
@@ -62,6 +63,21 @@ def check_deals(sim, obs, m, t):
             return f'{who}: called with m={d["m"]}, there are {m} parties', nt
         n = d['n']
         draws = d.get('draw_args') or []
+        if not draws and t >= 1 and d['variant'] == 'random_split' and unobserved is not None:
+            # no secrets.randbelow call seen at all: the dealer may obtain its randomness through another API of
+            # the secrets module; then only what the statement itself says is checked (degree <= t, constant term =
+            # secret, and -- below -- no coefficient vector used twice in the run)
+            p = d['order']
+            for h in range(n):
+                s = _ival(d['secrets'][h]) % p
+                got = R.interpolate_prime([(i + 1, _ival(d['shares'][i][h]) % p) for i in range(m)], p)
+                if len(got) - 1 > t or (got[0] if got else 0) != s:
+                    return f'{who}: shares of secret #{h} lie on {got}: degree > {t} or constant term != {s}', nt
+                coeffs = tuple(got[1:])
+                if p > 1 << 40 and coeffs and coeffs in unobserved:
+                    return f'{who}: coefficient vector {coeffs} of secret #{h} was already used by an earlier dealing', nt
+                unobserved.add(coeffs)
+            continue
         if len(draws) != t * n:
             return f'{who}: {len(draws)} random coefficients drawn, expected t*n = {t * n}', nt
         bad = [a for a, _ in draws if a != d['order']]
